@@ -25,3 +25,53 @@ Definition C09_kats := (Spec.KAT_Threefish.tf256_zero, Spec.KAT_Threefish.tf256_
 Print Assumptions C09_encrypt_eq_spec.
 Print Assumptions C09_unroll_irrelevant.
 Print Assumptions C09_kats.
+
+(** audit C09-F1 (work package audit-leftovers): arithmetic-form anchoring of the word operations.
+    [C09_encrypt_eq_spec] is parametric in the word operations, and model and specification use the
+    same Lib/Words.v definitions.  Proofs/LeftoversThreefish.v defines the textbook operations
+    independently ([add64a], [rotl64a]: mod / div / multiplication by a power of two), proves that they
+    agree with the Lib/Words.v ones on 64-bit words, and that the index-wise specification of
+    Spec/Threefish.v instantiated with them ([spec_encrypt_arith]) equals [spec_encrypt] for the three
+    sizes on EVERY input; hence the model equals the arithmetic-form specification. *)
+From CC Require Proofs.LeftoversThreefish.
+
+Theorem C09_arith_ops_textbook :
+  ((forall a b, LeftoversThreefish.add64a a b = (a + b) mod 2 ^ 64) /\
+  (forall a b, LeftoversThreefish.sub64a a b = (a + 2 ^ 64 - b) mod 2 ^ 64) /\
+  (forall r x, 0 < r -> LeftoversThreefish.rotl64a r x = (x * 2 ^ r) mod 2 ^ 64 + x / 2 ^ (64 - r)) /\
+  (forall r x, 0 < r -> LeftoversThreefish.rotr64a r x = x / 2 ^ r + (x * 2 ^ (64 - r)) mod 2 ^ 64) /\
+  (forall x, LeftoversThreefish.rotl64a 0 x = x /\ LeftoversThreefish.rotr64a 0 x = x))%N.
+Proof. exact LeftoversThreefish.arith_ops_textbook. Qed.
+
+Theorem C09_arith_ops_agree :
+  ((forall a b, LeftoversThreefish.add64a a b = Spec.Threefish.add64 a b) /\
+  (forall a b, b < 2 ^ 64 -> LeftoversThreefish.sub64a a b = Spec.Threefish.sub64 a b) /\
+  (forall r x, r < 64 -> x < 2 ^ 64 -> LeftoversThreefish.rotl64a r x = Spec.Threefish.rotl64 r x) /\
+  (forall r x, r < 64 -> x < 2 ^ 64 -> LeftoversThreefish.rotr64a r x = Spec.Threefish.rotr64 r x))%N.
+Proof. exact LeftoversThreefish.arith_ops_agree. Qed.
+
+Theorem C09_spec_arith_is_spec_at_arith_ops :
+  forall p key t0 t1 block,
+    LeftoversThreefish.spec_encrypt_arith p key t0 t1 block
+    = bytes_le 8 (Spec.Threefish.encrypt_words LeftoversThreefish.add64a N.lxor LeftoversThreefish.rotl64a
+                    Spec.Threefish.C240 p (words_le 8 key) t0 t1 (words_le 8 block)).
+Proof. exact LeftoversThreefish.spec_encrypt_arith_unfold. Qed.
+
+Theorem C09_spec_arith_eq_spec :
+  forall p key t0 t1 block,
+    p = Spec.Threefish.tf256 \/ p = Spec.Threefish.tf512 \/ p = Spec.Threefish.tf1024 ->
+    LeftoversThreefish.spec_encrypt_arith p key t0 t1 block = Spec.Threefish.spec_encrypt p key t0 t1 block.
+Proof. exact LeftoversThreefish.spec_arith_eq. Qed.
+
+Theorem C09_encrypt_eq_spec_arith :
+  forall c nu key t0 t1 block,
+    c = threefish256 \/ c = threefish512 \/ c = threefish1024 ->
+    length block = (8 * n_w c)%nat ->
+    m_encrypt c nu key t0 t1 block = LeftoversThreefish.spec_encrypt_arith (spec_of c) key t0 t1 block.
+Proof. exact LeftoversThreefish.model_eq_spec_arith. Qed.
+
+Print Assumptions C09_arith_ops_textbook.
+Print Assumptions C09_arith_ops_agree.
+Print Assumptions C09_spec_arith_is_spec_at_arith_ops.
+Print Assumptions C09_spec_arith_eq_spec.
+Print Assumptions C09_encrypt_eq_spec_arith.
